@@ -38,6 +38,8 @@ def plan(tier, seed):
         specs.append({"kind": "bitsweep", "count": 1 if q else 2, "full": not q})
     specs.append({"kind": "envelope", "count": 200 if q else 4000})
     specs.append({"kind": "buffers", "count": 60 if q else 1500})
+    for T in ([4] if q else [2, 4, 8, 16]):
+        specs.append({"kind": "threads", "threads": T, "count": 25 if q else 200})
     specs.append({"kind": "gnupg", "count": 6 if q else 100, "genkeys": 1 if q else 5, "shim": True})
     return specs
 
@@ -382,7 +384,79 @@ def run_buffers(spec, rec, lib):
     rec.sample({"buffers": "one bytearray payload and one entry dict edited in place between verify_gpg_signature calls"})
 
 
+def run_threads(spec, rec, lib):
+    """the digest that is verified is the one of THIS call's payload and header: threads verifying different payloads (some
+    large, so that hashing releases the interpreter lock) at the same time, then the main thread again, each judged by
+    the reference digest construction of its own arguments"""
+    import threading
+
+    from ..gen import entries as gentries
+    from ..monitors import sysmon
+
+    rng = random.Random(spec["seed"])
+    A = lib.authentication
+    T = spec["threads"]
+    for rnd in range(spec["count"]):
+        k = gkeys.key(rng.randrange(12))
+        datas = []
+        for t in range(T):
+            n = rng.choice([10, 300, 3000, 40000, 400000])
+            datas.append(canonjson.canon({"t": t, "pad": "x" * n, "r": rng.randrange(10**9)}))
+        hdr = gentries._hdr(rng, "gnupg")
+        entries = [openpgp.make_entry(k.seed, d, hdr if rng.random() < 0.6 else gentries._hdr(rng, "gnupg")) for d in datas]
+        # every thread checks its own genuine pair and another thread's entry against its own payload (must fail)
+        jobs = []
+        for t in range(T):
+            jobs.append((t, entries[t], datas[t], True))
+            u = (t + 1) % T
+            jobs.append((t, entries[u], datas[t], False))
+        results = {}
+        start = threading.Barrier(T)
+
+        def worker(t):
+            start.wait()
+            for rep in range(3):
+                for j, (tt, e, d, want) in enumerate(jobs):
+                    if tt == t:
+                        results[(t, rep, j)] = boundary.call(lib, A.verify_gpg_signature, copy.deepcopy(e), k.hex, d)
+
+        inj = sysmon.YieldInjector(lib.pkg_dir, random.Random(spec["seed"] * 1000 + rnd), prob=0.3)
+        with inj:
+            ths = [threading.Thread(target=worker, args=(t,)) for t in range(T)]
+            for th in ths:
+                th.start()
+            for th in ths:
+                th.join(600)
+        if any(th.is_alive() for th in ths):
+            rec.inconclusive_because("OpenPGP thread workload did not finish")
+            return
+        rec.count("context_switches_inside_library", inj.switches)
+        # and afterwards from the main thread (a torn module-level state would persist)
+        for j, (tt, e, d, want) in enumerate(jobs):
+            results[("main", 0, j)] = boundary.call(lib, A.verify_gpg_signature, copy.deepcopy(e), k.hex, d)
+        case = {"kind": "gpg_threads", "threads": T}
+        rec.case("gpg-threads|%d|%d" % (T, rnd))
+        for (who, rep, j), o in sorted(results.items(), key=lambda kv: str(kv[0])):
+            tt, e, d, want = jobs[j]
+            ref = openpgp.verify(k.pub, d, bytes.fromhex(e["other_headers"]), bytes.fromhex(e["signature"]))
+            if ref != want:
+                rec.inconclusive_because("harness: reference disagrees with construction in thread workload")
+                return
+            rec.count("threaded_gpg_verifications")
+            phase = "concurrent" if who != "main" else "sequential-after-threads"
+            if want and not o.accepted:
+                rec.violation(boundary.mechanism("false-reject", "verify_gpg_signature[threads]", "accept", o) + "/" + phase,
+                              "RFC 4880-valid signature over this call's payload rejected (%s, %d threads)" % (phase, T), case)
+                break
+            if not want and o.accepted:
+                rec.violation("unsound-accept/verify_gpg_signature/under-threads/" + phase,
+                              "signature made over ANOTHER thread's payload accepted for this call's payload (%s, %d threads)" % (phase, T), case)
+                break
+
+
 def run_shard(spec, rec, lib):
+    if spec["kind"] == "threads":
+        return run_threads(spec, rec, lib)
     if spec["kind"] == "buffers":
         return run_buffers(spec, rec, lib)
     {"ref": run_ref, "bitsweep": run_bitsweep, "envelope": run_envelope, "gnupg": run_gnupg}[spec["kind"]](spec, rec, lib)
@@ -401,6 +475,9 @@ def finish(merged, tier, seed):
 
 def replay(case, rec, lib):
     k = case.get("kind")
+    if k == "gpg_threads":
+        print("schedule-dependent witness; re-running the OpenPGP thread workload")
+        return run_threads({"seed": 1, "threads": case.get("threads", 4), "count": 40}, rec, lib)
     if k == "env":
         from . import c01
 
